@@ -1800,4 +1800,8 @@ def legs(tier, for_replay=False):
     ch = [it for N in (2, 3) for it in _circ.programs('py', N, 2) if len(it[1]) >= 1]
     out.append(Leg('compose_histories', fn_compose_history, ch, chunk=16,
                    bound='all programs of 1-2 gates over the C09 alphabets (12 letters N=2, 17 letters N=3): a.compose(b) at every split point, then two take() on one circuit, re-observe the other (layer-chain inventory and action)'))
+    from .c07 import fn_live_torch
+    treps = stab.representatives(2, 0)
+    out.append(Leg('live_histories_torch', fn_live_torch, [[1, i] for i in range(1, 48, 5)] + [[2, i] for i in (treps[1::4] if tier == 'quick' else treps)], chunk=1,
+                   bound='torchclifford: two query rounds (must agree and leave the tensors untouched), one in-place operation, a third query round vs a fresh state with identical tensors'))
     return out
